@@ -225,7 +225,7 @@ def body_histories(ctx):
     a = STM[ctx.choose(pool, 'submission')] + "\n" + STM[ctx.choose(pool, 'submission-2')] + "\n"
     b = STM[ctx.choose(pool, 'other-code')] + "\n"
     how = ('find_asts(student_code=)', 'find_matches(student_code=)', 'parse_program(code)', 'set_source+restore_code',
-           'nothing')[ctx.choose(5, 'interleaved')]
+           'nothing', 'verify(other code)', 'find_asts(student_code=<does not parse>)')[ctx.choose(7, 'interleaved')]
     case = {'submission': a, 'other': b, 'interleaved': how}
     ctx.observe(repr(case))
     ctx.set_sample(case)
@@ -241,21 +241,31 @@ def body_histories(ctx):
         if loaded.endswith('verify'):
             from pedal.source import verify
             verify()
-    ctx.step('battery on the submission')
-    want, got = _lite(a)
-    ctx.evaluated(len(want))
-    if want != got:
-        ctx.fail({'symptom': 'checks disagree with the tree', 'when': 'first'}, case=case, want=want, got=got)
-        return
+    # with or without the checks having looked at the submission before the interleaved step (whatever CAIT
+    # caches for the submission exists only in the first case)
+    warm = bool(ctx.choose(2, 'battery-before'))
+    case['battery_before'] = warm
+    if warm:
+        ctx.step('battery on the submission')
+        want, got = _lite(a)
+        ctx.evaluated(len(want))
+        if want != got:
+            ctx.fail({'symptom': 'checks disagree with the tree', 'when': 'first'}, case=case, want=want, got=got)
+            return
     ctx.step(how)
     try:
         tb = ast.parse(b)
         want_b = sorted((n.lineno, n.col_offset) for n in ast.walk(tb) if isinstance(n, ast.Name))
         got_b = None
-        if how.startswith('find_asts'):
+        if how.startswith('find_asts(student_code=)'):
             got_b = sorted((g.astNode.lineno, g.astNode.col_offset) for g in find_asts('Name', student_code=b))
         elif how.startswith('find_matches'):
             find_matches('___', student_code=b)
+        elif how.startswith('verify'):
+            from pedal.source import verify
+            verify(b)
+        elif how.endswith('<does not parse>)'):
+            find_asts('Name', student_code=b + "oops = (\n")
         elif how.startswith('parse_program'):
             got_b = sorted((g.astNode.lineno, g.astNode.col_offset) for g in parse_program(b).find_all('Name'))
         if got_b is not None and got_b != want_b:
